@@ -1,29 +1,83 @@
 """C08 - randomness discipline: seeded runs repeat; no two samples share random variates.
 
-Mode: stateless choice explorer over complete runs of both REAL engines on REAL simulators (MarkovChainProcess /
-CouplingMarkovChain, HEM Levy model, 11-state grid, inversion sampler), with every source of nondeterminism owned by
-mc/c08_util.py: a counter-based tracing generator behind numpy.random.* and random.*, fake os.getpid and time.time as seen from
-rpylib.montecarlo.configuration, and SimPool in place of pathos.multiprocessing.Pool inside the two engine modules.
+Mode: stateless choice explorer over complete runs - and over HISTORIES of several runs on re-used objects - of both REAL engines
+on REAL simulators (LevyProcess = direct simulation, MarkovChainProcess / CouplingMarkovChain on an 11-state grid; HEM and Merton
+Levy models; inversion / table / alias samplers), with every source of nondeterminism owned by mc/c08_util.py: a counter-based
+tracing generator behind numpy.random.* and random.*, fake os.getpid and time.time as seen from rpylib.montecarlo.configuration,
+SimPool in place of pathos.multiprocessing.Pool inside the two engine modules, and a scripted os.cpu_count() answer for pools
+built with processes=None.
 
 Choice points  the worker that runs each chunk (default round robin), the second returned by each time.time() call (same as
-               the previous call / next second). Bound: all sequences with at most D deviations (D = 1 quick, 2 thorough).
-Lattice        engine in {standard, multilevel fixed-level, multilevel adaptive} x simulation mode in {fixed dates, jump
-               times} x seed in {None, 7} x nb_of_processes in {1, 2} (+ 3 thorough) x paths in {4, 9} (+ 8 thorough).
-Oracle (a) with a seed and one process, two runs started from two DIFFERENT pre-existing generator states store identical
-           samples bit for bit;
-       (b) within one run the sets of variates consumed by two different samples - (stream, position) of every draw made while
-           the sample is simulated, plus the pre-drawn Brownian / jump-count row it pops - are pairwise disjoint, across paths,
-           passes, levels and simulated workers; every sample of a fixed-date run pops exactly one pre-drawn row;
+               the previous call / next second). Bound: all sequences with at most D deviations (`bound` of the case).
+Environment    nb_of_processes=None (the constructor DEFAULT: "one worker per CPU") makes the number of workers an answer of the
+answers        operating system: cpus in {1, 2} (+ 3 thorough) is part of the case.
+
+Sub-check `run` (one pricing on fresh objects). Lattice: engine in {standard, multilevel fixed-level, multilevel adaptive}
+               x process of the standard engine in {chain, levy (direct simulation)} x simulation mode in {fixed dates, jump
+               times} x seed in {None, 7, 0} x nb_of_processes in {1, 2, None with cpus 1, None with cpus 2} (+ 3, None with
+               cpus 3 thorough) x paths in {4, 9} (+ 8 thorough); D = 1 quick, 2 thorough (1 with a single worker). Quick keeps
+               seed 0 only with nb_of_processes in {1, None/2 cpus} and 4 paths, 9 paths only for the chain process of the
+               standard and fixed-level engines, and explores the default schedule only (D = 0) for seed 0 with a pool and for
+               the adaptive engine with nb_of_processes=None (it opens one pool per level and pass).
+Sub-check `repeat` (oracle (a) on fresh objects): engine x process x mode x sampling method x seed in {7, 0} (x model in {hem,
+               hem with a re-initialised parameter object (alphabets.with_reinit), merton} for the inversion method; quick:
+               other models with seed 7 only), 5 paths. The two runs differ in the pre-existing generator state, in the clock
+               and in the pid of the pricing process (what a time / pid derived seed is made of).
+Sub-check `history` (several pricings, objects re-used). A history is a list of steps; a step = (whose engine prices, which
+               product, which public attributes of the configuration are re-assigned before, which public method is called
+               before, which public pricing method); the first step is always a plain pricing on fresh objects:
+                 on       same engine | copy: a deep copy of it (continues as the current engine) | other-engine: another engine
+                          built from scratch (independent objects of the same classes priced in between: leaks through class
+                          attributes / module caches / shared defaults) | shared-process: another engine + configuration built on
+                          the SAME process object | shared-conf: another engine + process on the SAME configuration object |
+                          new-conf: a new configuration object assigned to the engine
+                 product  the history's own product | other-product: a product of the other simulation mode (each built once)
+                 set      paths (mc_paths / initial_mc_paths = 6), seed (11), seed0 (0), pool (nb_of_processes = 2) assigned on
+                          the live configuration; restore = {paths 4, seed 7, nb_of_processes 1}
+                 pre      init: Engine.initialisation called by the user; precomp: process.pre_computation called by the user
+                          (pre-drawn variates left unconsumed)
+                 op       standard: price; multilevel: price_with_constant_mc_paths_and_level, price(rmse)
+               quick    = every first op x every step label x every second op, plus the sandwiches op1 / X.opm / restore.op1
+                          with X in SANDWICH - all with seed 7, one process, inversion sampler - plus the plain repetitions
+                          with the table sampler, plus the plain two-step histories for (seed, nb_of_processes) in
+                          {None, 7} x {1, 2, None with 2 cpus} other than (7, 1) (D = 1 with one process, 0 with a pool);
+               thorough = all three-step histories over the step alphabet (+ restore as third step) for seed 7 / one process
+                          with D = 1 (table and alias samplers for the plain ones), the plain three-step ones for the other
+                          environments with D = 1.
+Oracle (a) with a seed and one process, a pricing stores identical samples (and returns the same price) bit for bit whatever
+           happened before: two runs on fresh objects started from two DIFFERENT pre-existing generator states (`repeat`), and
+           every step of a history whose effective configuration has a seed and one process against the SAME pricing made on
+           freshly built objects (`history`; only the first failing step of a history is reported, the key names the history
+           up to that step);
+       (b) within one run (one step of a history) the sets of variates consumed by two different samples - (stream, position)
+           of every draw made while the sample is simulated, plus the pre-drawn Brownian / jump-count row it pops - are pairwise
+           disjoint, across paths, passes, levels and simulated workers; every sample of a fixed-date run pops exactly one
+           pre-drawn row;
        (c) classification of every sharing by its mechanism (same pre-drawn row from two chunk copies / generator re-seeded
            to a used state at a new level or pass / two workers with one seed), which is what the violation key carries.
+Keys           C08:<engine>[:levy]:<mode>:<unseeded|seeded|seed=0>[:procs-none]:<single|pool>:samples-share-variates:<class>
+               C08:repeat:<engine>[:levy]:<mode>:<method>[:<model>][:seed=0]:seeded-single-process-run-not-reproduced
+               C08:history:<engine>[:levy]:start=<mode>[:<method>]:<history up to step k>:step<k>:<mode of the step>:<env>:...
+               (`...:fixed:*:pool:samples-share-variates:pre-drawn-row-consumed-twice:two-pool-chunk-copies` is the open
+               known finding in all three forms).
 Conformance    the real engines are run with the REAL pathos pool on a scripted process that reports (pid, row popped, number
                of paths produced by this copy): chunking, per-chunk copies, result order and the number of worker processes
-               must be what SimPool models. Reported as traces_validated_against_impl.
-Not covered: OS-level timing, start methods other than fork, pid reuse, the table method's use of `random`.
+               must be what SimPool models - including processes=None with os.cpu_count() scripted to 3. Reported as
+               traces_validated_against_impl.
+Self-checks    a draw from a numpy.random / random function the tracing generator does not replace changes the real global
+               generator state: detected at the end of every run and raised (harness-exception), never a silent pass. Variates
+               drawn outside pre_computation and outside a simulate_one_path* call, and a pre_computation whose draw pattern is
+               not the one the attribution of pre-drawn rows assumes, are reported as caps (evidence: not exhaustive). A case is
+               non-trivial only if every run in it simulated at least two samples.
+Not covered: OS-level timing, start methods other than fork, pid reuse; nb_of_processes < 1 (the pool refuses it); sharing of
+variates BETWEEN two runs of a history (the statement speaks of one run; seeded runs share by design); the max-step simulation
+mode (reached only through the SDE processes, not through the anchored engines + Levy processes); the Levy-copula and SDE
+coupling processes; control variates / spot statistics / variance reduction options (they draw nothing; antithetic raises
+NotImplementedError); a grid refined by the user between two pricings (another configuration, not a repetition).
 """
 from __future__ import annotations
 
-import math
+import copy
 import os
 
 import numpy as np
@@ -35,51 +89,164 @@ from mc import core
 PID = "C08"
 LEVEL = "model_checking"
 RULE = (
-    "every configuration of the stated lattice x every sequence of environment answers (chunk -> worker, clock) with at most D "
-    "deviations; one evaluation = one complete run of a real engine on real simulators under the tracing generator; "
-    "non-trivial = the run simulated at least two samples; states = distinct observed (sample -> worker, seed events) outcomes, "
-    "transitions = choice points taken"
+    "every configuration of the stated lattice and every history of the stated step alphabet x every sequence of environment "
+    "answers (chunk -> worker, clock) with at most D deviations; one evaluation = one complete run of a real engine on real "
+    "simulators under the tracing generator; non-trivial = the run simulated at least two samples; states = distinct observed "
+    "(sample -> worker, seed events) outcomes, transitions = choice points taken"
 )
 ASSUMPTIONS = [
-    "worker processes are represented by SimPool (mc/c08_util.py); its chunking / per-chunk closure copies / result order are "
-    "validated against the real pathos pool by the conformance sub-check",
+    "worker processes are represented by SimPool (mc/c08_util.py); its chunking / per-chunk closure copies / result order / "
+    "number of workers for processes=None are validated against the real pathos pool by the conformance sub-check",
     "two draws share a variate iff they cover the same (stream tag, position) of the tracing generator; re-seeding with a value "
     "used before re-creates the same stream, as numpy's generator does",
 ]
 CHUNK = 1
 
 HEM = {"family": "hem", "exp": False, "params": {}}
+MODELS = {"hem": HEM, "hem-reinit": dict(HEM, via="reinit"), "merton": {"family": "merton", "exp": False, "params": {}}}
 GRID = {"kind": "fixed", "h": 0.02, "n": 10, "refine": 0}
+RMSE = 0.02
+SEED, SEED2 = 7, 11  # + seed 0: a seed like any other (None is the "no seed" marker), but falsy
+OPS = {"standard": ("price",), "mlmc": ("constant", "adaptive")}
+OTHER_MODE = {"fixed": "jumptimes", "jumptimes": "fixed"}
+
+# step alphabet of the histories (label -> step without its op)
+STEPS = {
+    "same": {},
+    "copy": {"on": "copy"},
+    "other-engine": {"on": "other-engine"},
+    "shared-process": {"on": "shared-process"},
+    "shared-conf": {"on": "shared-conf"},
+    "new-conf": {"on": "new-conf"},
+    "init": {"pre": "initialisation"},
+    "precomp": {"pre": "pre_computation"},
+    "other-product": {"product": "other"},
+    "paths": {"set": {"paths": 6}},
+    "seed": {"set": {"seed": SEED2}},
+    "seed0": {"set": {"seed": 0}},
+    "pool": {"set": {"procs": 2}},
+}
+SANDWICH = ("other-product", "other-engine", "shared-process", "shared-conf", "pool", "paths", "seed", "seed0")
+
+
+def _procs_alphabet(thorough):
+    """(nb_of_processes, scripted cpu count) - the cpu count matters only for nb_of_processes=None"""
+    out = [(1, None), (2, None)]
+    if thorough:
+        out.append((3, None))
+    out += [(None, 1), (None, 2)]
+    if thorough:
+        out.append((None, 3))
+    return out
+
+
+def _step(label, op, restore=None):
+    st = dict(STEPS[label], op=op, label=label)
+    if restore is not None:
+        st = {"set": dict(restore), "op": op, "label": "restore"}
+    return st
+
+
+def _history_cases(tier):
+    thorough = tier == "thorough"
+    out = []
+    flavours = [("standard", "chain"), ("standard", "levy"), ("mlmc", "chain")]
+    for engine, process in flavours:
+        ops = OPS[engine]
+        for mode in ("fixed", "jumptimes"):
+            base = {"sub": "history", "engine": engine, "process": process, "mode": mode, "paths": 4}
+            restore = {"paths": 4, "seed": SEED, "procs": 1}
+            # (a)+(b): seed and one process
+            hs = []
+            for op1 in ops:
+                first = _step("same", op1)
+                for lab in STEPS:
+                    for op2 in ops:
+                        hs.append([first, _step(lab, op2)])
+                if not thorough:
+                    for lab in SANDWICH:
+                        for opm in ops:
+                            hs.append([first, _step(lab, opm), _step("same", op1, restore=restore)])
+                else:
+                    for lab2 in STEPS:
+                        for op2 in ops:
+                            for lab3 in list(STEPS) + ["restore"]:
+                                for op3 in ops:
+                                    third = _step("same", op3, restore=restore) if lab3 == "restore" else _step(lab3, op3)
+                                    hs.append([first, _step(lab2, op2), third])
+            for h in hs:
+                out.append(dict(base, seed=SEED, procs=1, cpus=None, bound=1 if thorough else 0, steps=h))
+                if process == "chain" and all(st["label"] == "same" for st in h):
+                    # the table sampler draws its states from `random`, the alias sampler from its own numpy calls
+                    for method in (("TABLE", "ALIAS") if thorough else ("TABLE",)):
+                        out.append(dict(base, seed=SEED, procs=1, cpus=None, bound=0, steps=h, method=method))
+            # (b) in the other environments: plain repetitions
+            for seed in (None, SEED):
+                for procs, cpus in [(1, None), (2, None), (None, 2)]:
+                    if seed == SEED and procs == 1:
+                        continue
+                    for op1 in ops:
+                        for op2 in ops:
+                            h = [_step("same", op1), _step("same", op2)]
+                            if thorough:
+                                for op3 in ops:
+                                    out.append(dict(base, seed=seed, procs=procs, cpus=cpus, bound=1, steps=h + [_step("same", op3)]))
+                            else:
+                                out.append(dict(base, seed=seed, procs=procs, cpus=cpus, bound=1 if procs == 1 else 0, steps=h))
+    return out
 
 
 def cases(tier):
     thorough = tier == "thorough"
     out = []
     bound = 2 if thorough else 1
-    for engine in ("standard", "mlmc-fixed", "mlmc-adaptive"):
+    for engine, process in (("standard", "chain"), ("standard", "levy"), ("mlmc-fixed", "chain"), ("mlmc-adaptive", "chain")):
         for mode in ("fixed", "jumptimes"):
-            for seed in (None, 7):
-                for procs in ((1, 2, 3) if thorough else (1, 2)):
+            for seed in (None, SEED, 0):
+                for procs, cpus in _procs_alphabet(thorough):
                     for paths in ((4, 8, 9) if thorough else (4, 9)):
                         if engine == "mlmc-adaptive" and paths == 9 and not thorough:
                             continue
-                        out.append({"sub": "run", "engine": engine, "mode": mode, "seed": seed, "procs": procs,
-                                    "paths": paths, "bound": bound if procs > 1 else min(bound, 1)})
-    for engine in ("standard", "mlmc-fixed", "mlmc-adaptive"):
+                        if seed == 0 and not thorough and (procs not in (1, None) or cpus == 1 or paths == 9):
+                            continue  # quick: seed 0 with one process and with the default number of processes
+                        if process == "levy" and paths == 9 and not thorough:
+                            continue
+                        single = procs == 1 or (procs is None and (cpus or 1) == 1)
+                        b = min(bound, 1) if single else bound
+                        if not thorough and not single and (seed == 0 or (procs is None and engine == "mlmc-adaptive")):
+                            b = 0  # quick: default schedule only (the adaptive engine opens a pool per level and pass)
+                        out.append({"sub": "run", "engine": engine, "process": process, "mode": mode, "seed": seed, "procs": procs,
+                                    "cpus": cpus, "paths": paths, "bound": b})
+    for engine, process in (("standard", "chain"), ("standard", "levy"), ("mlmc-fixed", "chain"), ("mlmc-adaptive", "chain")):
         for mode in ("fixed", "jumptimes"):
             # every sampling method draws its states from its own source (the table method reads `random`, not numpy)
-            for method in ("INVERSION", "TABLE", "ALIAS") if (thorough or engine != "mlmc-adaptive") else ("INVERSION",):
-                out.append({"sub": "repeat", "engine": engine, "mode": mode, "seed": 7, "paths": 5, "method": method})
+            methods = ("INVERSION", "TABLE", "ALIAS") if (thorough or engine != "mlmc-adaptive") else ("INVERSION",)
+            if process == "levy":
+                methods = ("INVERSION",)  # direct simulation: no sampler of states
+            for method in methods:
+                for model in (("hem", "hem-reinit", "merton") if method == "INVERSION" else ("hem",)):
+                    if model != "hem" and engine == "mlmc-adaptive" and not thorough:
+                        continue
+                    for seed in (SEED, 0):
+                        if seed == 0 and model != "hem" and not thorough:
+                            continue
+                        out.append({"sub": "repeat", "engine": engine, "process": process, "mode": mode, "seed": seed, "paths": 5,
+                                    "method": method, "model": model})
+    out += _history_cases(tier)
     for procs, paths in ((2, 4), (2, 8), (3, 9), (2, 17)):
-        out.append({"sub": "conformance", "procs": procs, "paths": paths, "engine": "standard"})
-    out.append({"sub": "conformance", "procs": 2, "paths": 8, "engine": "mlmc-fixed"})
+        out.append({"sub": "conformance", "procs": procs, "cpus": None, "paths": paths, "engine": "standard"})
+    out.append({"sub": "conformance", "procs": None, "cpus": 3, "paths": 13, "engine": "standard"})
+    out.append({"sub": "conformance", "procs": 2, "cpus": None, "paths": 8, "engine": "mlmc-fixed"})
+    out.append({"sub": "conformance", "procs": None, "cpus": 3, "paths": 13, "engine": "mlmc-fixed"})
     return out
 
 
 def check_case(sh, case):
-    {"run": _run, "repeat": _repeat, "conformance": _conformance}[case["sub"]](sh, case)
+    {"run": _run, "repeat": _repeat, "history": _history, "conformance": _conformance}[case["sub"]](sh, case)
 
 
+# ----------------------------------------------------------------------------------------------------------------------
+# construction of the real objects
 # ----------------------------------------------------------------------------------------------------------------------
 
 def make_product(mode):
@@ -93,57 +260,156 @@ def make_product(mode):
     return Product(payoff_underlying=Spot(), payoff=payoff, maturity=1.0)
 
 
-def build_and_price(case):
-    """Construct real objects and run the engine; returns the statistics object."""
-    from rpylib.distribution.sampling import SamplingMethod
+def _kind(case):
+    """engine class and (for the one-pricing sub-checks) the pricing method, from the engine label of the case"""
+    e = case["engine"]
+    if e == "standard":
+        return "standard", "price"
+    if e == "mlmc":
+        return "mlmc", None
+    return "mlmc", {"mlmc-fixed": "constant", "mlmc-adaptive": "adaptive"}[e]
+
+
+def make_configuration(case, paths=None, seed="case", procs="case"):
     from rpylib.montecarlo.configuration import ConfigurationMultiLevel, ConfigurationStandard, ConvergenceRates
 
-    model = A.make_model(HEM)
-    grid = A.make_grid(GRID, model, 1)
-    product = make_product(case["mode"])
-    if case["engine"] == "standard":
-        from rpylib.montecarlo.standard.engine import Engine
+    paths = case["paths"] if paths is None else paths
+    seed = case["seed"] if seed == "case" else seed
+    procs = case.get("procs", 1) if procs == "case" else procs
+    e = case["engine"]
+    if e == "standard":
+        return ConfigurationStandard(mc_paths=paths, seed=seed, nb_of_processes=procs)
+    if e == "mlmc-fixed":
+        return ConfigurationMultiLevel(initial_level=1, maximum_level=2, initial_mc_paths=paths, seed=seed, nb_of_processes=procs)
+    if e == "mlmc-adaptive":
+        return ConfigurationMultiLevel(convergence_rates=ConvergenceRates(alpha=1.0, beta=2.0, gamma=1.0), initial_level=2,
+                                       maximum_level=3, initial_mc_paths=paths, seed=seed, nb_of_processes=procs)
+    # histories: one configuration serves both pricing methods (the default convergence criteria need three levels)
+    return ConfigurationMultiLevel(convergence_rates=ConvergenceRates(alpha=1.0, beta=2.0, gamma=1.0), initial_level=2,
+                                   maximum_level=3, initial_mc_paths=paths, seed=seed, nb_of_processes=procs)
+
+
+def make_process(case):
+    from rpylib.distribution.sampling import SamplingMethod
+
+    model = A.make_model(MODELS[case.get("model", "hem")])
+    method = SamplingMethod[case.get("method", "INVERSION")]
+    if _kind(case)[0] == "standard":
+        if case.get("process", "chain") == "levy":
+            from rpylib.process.levyprocess import LevyProcess
+
+            return LevyProcess(model)
         from rpylib.process.markovchain.markovchain import MarkovChainProcess
 
-        proc = MarkovChainProcess(model=model, method=SamplingMethod[case.get("method", "INVERSION")], grid=grid)
-        conf = ConfigurationStandard(mc_paths=case["paths"], seed=case["seed"], nb_of_processes=case.get("procs", 1))
-        eng = Engine(configuration=conf, process=proc)
-        return eng.price(product), eng
-    from rpylib.montecarlo.multilevel.engine import Engine
+        return MarkovChainProcess(model=model, method=method, grid=A.make_grid(GRID, model, 1))
     from rpylib.process.coupling.couplingmarkovchain import CouplingMarkovChain
 
-    cp = CouplingMarkovChain(model=model, method=SamplingMethod[case.get("method", "INVERSION")], grid=grid)
-    if case["engine"] == "mlmc-fixed":
-        conf = ConfigurationMultiLevel(initial_level=1, maximum_level=2, initial_mc_paths=case["paths"], seed=case["seed"],
-                                       nb_of_processes=case.get("procs", 1))
-        eng = Engine(configuration=conf, coupling_process=cp)
-        return eng.price_with_constant_mc_paths_and_level(product), eng
-    conf = ConfigurationMultiLevel(convergence_rates=ConvergenceRates(alpha=1.0, beta=2.0, gamma=1.0), initial_level=2,
-                                   maximum_level=3, initial_mc_paths=case["paths"], seed=case["seed"],
-                                   nb_of_processes=case.get("procs", 1))
-    eng = Engine(configuration=conf, coupling_process=cp)
-    return eng.price(product, 0.02), eng
+    return CouplingMarkovChain(model=model, method=method, grid=A.make_grid(GRID, model, 1))
+
+
+def make_engine(case, conf, proc):
+    if _kind(case)[0] == "standard":
+        from rpylib.montecarlo.standard.engine import Engine
+
+        return Engine(configuration=conf, process=proc)
+    from rpylib.montecarlo.multilevel.engine import Engine
+
+    return Engine(configuration=conf, coupling_process=proc)
+
+
+def do_op(eng, product, op):
+    if op == "price":
+        return eng.price(product)
+    if op == "constant":
+        return eng.price_with_constant_mc_paths_and_level(product)
+    return eng.price(product, RMSE)
+
+
+def engine_process(eng):
+    return eng.process if hasattr(eng, "process") else eng.coupling_process
+
+
+def set_paths(conf, n):
+    if hasattr(conf, "mc_paths"):
+        conf.mc_paths = n
+    else:
+        conf.initial_mc_paths = n
+
+
+def build_and_price(case):
+    """Construct real objects and run the engine once; returns the statistics object."""
+    eng = make_engine(case, make_configuration(case), make_process(case))
+    return do_op(eng, make_product(case["mode"]), _kind(case)[1]), eng
 
 
 def stored_rows(stats):
     if hasattr(stats, "mc_statistics"):
-        return [np.array(m._payoff_statistics.stats, dtype=float) for m in stats.mc_statistics]
-    return [np.array(stats._payoff_statistics.stats, dtype=float)]
+        rows = [np.array(m._payoff_statistics.stats, dtype=float) for m in stats.mc_statistics]
+    else:
+        rows = [np.array(stats._payoff_statistics.stats, dtype=float)]
+    try:  # the returned price, as a last "level"
+        rows.append(np.atleast_1d(np.array(stats.price(), dtype=float)))
+    except Exception:  # noqa: BLE001 - a price that cannot be formed is not this property's business
+        rows.append(np.zeros(0))
+    return rows
+
+
+def same_rows(r1, r2):
+    return len(r1) == len(r2) and all(a.shape == b.shape and np.array_equal(a, b, equal_nan=True) for a, b in zip(r1, r2))
+
+
+def first_difference(r1, r2):
+    if len(r1) != len(r2):
+        return f"{len(r1) - 1} vs {len(r2) - 1} levels"
+    for l, (a, b) in enumerate(zip(r1, r2)):
+        name = "price" if l == len(r1) - 1 else f"level {l}"
+        if a.shape != b.shape:
+            return f"{name}: shapes {a.shape} vs {b.shape}"
+        d = np.argwhere(~((a == b) | (np.isnan(a) & np.isnan(b))))
+        if d.size:
+            return f"{name} row {int(d[0][0])}: {a[tuple(d[0])]!r} vs {b[tuple(d[0])]!r}"
+    return None
+
+
+class _Quiet:
+    def __enter__(self):
+        import logging
+        import warnings
+
+        self.w = warnings.catch_warnings()
+        self.w.__enter__()
+        warnings.simplefilter("ignore")
+        self.e = np.errstate(all="ignore")
+        self.e.__enter__()
+        logging.disable(logging.CRITICAL)
+
+    def __exit__(self, *a):
+        import logging
+
+        logging.disable(logging.NOTSET)
+        self.e.__exit__(*a)
+        self.w.__exit__(*a)
+        return False
+
+
+def _no_untraced(h, case):
+    if h.untraced:
+        raise RuntimeError(f"the library drew from {h.untraced} through a function the tracing generator does not replace: {case}")
+
+
+def _blind_spots(sh, h):
+    """what would make oracle (b) blind is reported as a cap (evidence: not exhaustive), never passed over silently"""
+    if any(e[0] == "pre-computation-draw-pattern-unknown" for e in h.events):
+        sh.cap("the draw pattern of SimulationFixedTimes.pre_computation changed: pre-drawn rows are not attributed to paths")
+    if h.unattributed:
+        sh.cap(f"{h.unattributed} variates drawn outside pre_computation and outside a simulate_one_path* call: not attributed to a sample")
 
 
 def run_once(case, chooser, boot="A"):
-    import warnings
-
-    h = U.Harness(chooser, boot=boot)
-    with U.Installed(h), warnings.catch_warnings(), np.errstate(all="ignore"):
-        warnings.simplefilter("ignore")
-        import logging
-
-        logging.disable(logging.CRITICAL)
-        try:
-            stats, eng = build_and_price(case)
-        finally:
-            logging.disable(logging.NOTSET)
+    h = U.Harness(chooser, boot=boot, cpus=case.get("cpus"))
+    with U.Installed(h), _Quiet():
+        stats, eng = build_and_price(case)
+    _no_untraced(h, case)
     return h, stats
 
 
@@ -166,10 +432,13 @@ def classify(h, s1, s2, kind):
     return "workers-of-two-pools-share-a-stream"
 
 
-def check_sharing(sh, case, h, tag):
+def check_sharing(sh, mode, h, tag, lo=0, hi=None):
+    """oracle (b) on the samples lo <= id < hi of the harness (one run)"""
+    hi = h.n_samples if hi is None else hi
     owner = {}
     seen = set()
-    for sid in sorted(h.samples):
+    sids = [sid for sid in sorted(h.samples) if lo <= sid < hi]
+    for sid in sids:
         rows_here = h.samples[sid].get("row_tags", set())
         for t in h.samples[sid]["tags"]:
             o = owner.get(t)
@@ -185,29 +454,45 @@ def check_sharing(sh, case, h, tag):
                     a, b = h.samples[o], h.samples[sid]
                     sh.violation(f"C08:{tag}:samples-share-variates:{cls}",
                                  f"samples #{o} ({a['ctx']}, pid {a['pid']}) and #{sid} ({b['ctx']}, pid {b['pid']}) both consume "
-                                 f"variate {t} ({kind}); {len(h.samples)} samples in the run",
+                                 f"variate {t} ({kind}); {len(sids)} samples in the run",
                                  {"seed_events": h.events[:30], "choices": [c for c in h.chooser.choices]})
-    if case["mode"] == "fixed":
-        bad = [sid for sid, s in h.samples.items() if s.get("popped", 1) != 1]
+    if mode == "fixed":
+        bad = [sid for sid in sids if h.samples[sid].get("popped", 1) != 1]
         if bad:
             sh.violation(f"C08:{tag}:sample-does-not-pop-exactly-one-pre-drawn-row",
                          f"samples {bad[:5]} popped {[h.samples[b].get('popped') for b in bad[:5]]} rows", None)
 
 
+def _env_tag(seed, procs):
+    """the known finding is keyed '...:<mode>:*:pool:samples-share-variates:...': 'pool' stays the last component"""
+    s = "unseeded" if seed is None else ("seeded" if seed else f"seed={seed}")
+    if procs is None:
+        return f"{s}:procs-none:pool"
+    return f"{s}:{'pool' if procs > 1 else 'single'}"
+
+
+def _engine_tag(case):
+    return case["engine"] + (":levy" if case.get("process", "chain") == "levy" else "")
+
+
 def _run(sh, case):
-    tag = f"{case['engine']}:{case['mode']}:{'seeded' if case['seed'] else 'unseeded'}:{'pool' if case['procs'] > 1 else 'single'}"
+    tag = f"{_engine_tag(case)}:{case['mode']}:{_env_tag(case['seed'], case['procs'])}"
     outcomes = set()
 
     def run(ch):
         h, stats = run_once(case, ch)
         sh.count("evaluations")
         sh.count("samples", len(h.samples))
-        check_sharing(sh, case, h, tag)
+        check_sharing(sh, case["mode"], h, tag)
+        _blind_spots(sh, h)
+        if len(h.samples) >= 2:
+            sh.nontriv()
         o = (tuple((s["ctx"], s["level"]) for _, s in sorted(h.samples.items())),
              tuple((e[0], e[1], e[2]) for e in h.events if e[0].endswith("seed")))
         outcomes.add(core.digest(o))
         sh.outcome(o)
-        if len(outcomes) == 1 and case["paths"] == 4 and case["procs"] == 2 and case["engine"] == "standard":
+        sh.cls(f"run:{tag}")
+        if len(outcomes) == 1 and case["paths"] == 4 and case["procs"] == 2 and _engine_tag(case) == "standard":
             sh.sample({"case": case, "samples": [(sid, s["ctx"], len(s["tags"])) for sid, s in sorted(h.samples.items())][:8],
                        "events": h.events[:12]})
 
@@ -217,33 +502,150 @@ def _run(sh, case):
         sh.cap(f"run cap hit: {case}")
     sh.states += len(outcomes)
     sh.transitions += ex.points_total
-    sh.nontriv()
 
 
 def _repeat(sh, case):
     """(a): a seeded single-process run repeated from two different pre-existing generator states."""
-    tag = f"{case['engine']}:{case['mode']}:{case.get('method', 'INVERSION').lower()}"
+    tag = f"{_engine_tag(case)}:{case['mode']}:{case.get('method', 'INVERSION').lower()}"
+    if case.get("model", "hem") != "hem":
+        tag += f":{case['model']}"
+    if case["seed"] != SEED:
+        tag += f":seed={case['seed']}"
     rows = []
     for boot in ("A", "B"):
         ch = core.Chooser([])
         h, stats = run_once(dict(case, procs=1), ch, boot=boot)
         rows.append(stored_rows(stats))
         sh.count("evaluations")
-    same = len(rows[0]) == len(rows[1]) and all(a.shape == b.shape and np.array_equal(a, b) for a, b in zip(rows[0], rows[1]))
-    if not same:
-        first = None
-        for l, (a, b) in enumerate(zip(rows[0], rows[1])):
-            if a.shape != b.shape:
-                first = f"level {l}: shapes {a.shape} vs {b.shape}"
-                break
-            d = np.argwhere(a != b)
-            if d.size:
-                first = f"level {l} row {int(d[0][0])}: {a[tuple(d[0])]!r} vs {b[tuple(d[0])]!r}"
-                break
+    if not same_rows(rows[0], rows[1]):
         sh.violation(f"C08:repeat:{tag}:seeded-single-process-run-not-reproduced",
-                     f"seed=7, one process, two runs from different pre-existing generator states differ: {first}", None)
+                     f"seed={case['seed']}, one process, two runs from different pre-existing generator states differ: "
+                     f"{first_difference(rows[0], rows[1])}", None)
     sh.outcome((tag, core.digest([r.tolist() for r in rows[0]])))
+    sh.cls(f"repeat:{tag}")
     sh.nontriv()
+
+
+# ----------------------------------------------------------------------------------------------------------------------
+# histories on re-used objects
+# ----------------------------------------------------------------------------------------------------------------------
+
+_REF = {}  # reference runs on fresh objects: a pure function of the key
+
+
+def _reference(case, mode, paths, seed, op):
+    key = (case["engine"], case.get("process", "chain"), case.get("model", "hem"), case.get("method", "INVERSION"), mode, paths, seed, op)
+    if key not in _REF:
+        c = dict(case, mode=mode, paths=paths, seed=seed, procs=1)
+        h = U.Harness(core.Chooser([]), boot="R")
+        with U.Installed(h), _Quiet():
+            eng = make_engine(c, make_configuration(c), make_process(c))
+            rows = stored_rows(do_op(eng, make_product(mode), op))
+        _no_untraced(h, c)
+        _REF[key] = rows
+    return _REF[key]
+
+
+def history_label(steps):
+    return ">".join((f"{st['label']}." if st["label"] != "same" else "") + st["op"] for st in steps)
+
+
+def play_history(case, chooser):
+    """Executes the history under ONE harness (the generator state left by a pricing is what the next one starts from);
+    returns the harness and, per step, (mode, effective paths / seed / procs, op, sample range, stored rows)."""
+    h = U.Harness(chooser, boot="A", cpus=case.get("cpus"))
+    out = []
+    with U.Installed(h), _Quiet():
+        products = {case["mode"]: make_product(case["mode"])}
+        eff = {"paths": case["paths"], "seed": case["seed"], "procs": case["procs"]}
+        cur = (make_engine(case, make_configuration(case), make_process(case)), eff)
+        for st in case["steps"]:
+            on = st.get("on", "same")
+            if on == "copy":
+                cur = (copy.deepcopy(cur[0]), dict(cur[1]))
+                eng, eff = cur
+            elif on == "other-engine":
+                eff = dict(cur[1])
+                eng = make_engine(case, make_configuration(case, eff["paths"], eff["seed"], eff["procs"]), make_process(case))
+            elif on == "shared-process":
+                eff = dict(cur[1])
+                eng = make_engine(case, make_configuration(case, eff["paths"], eff["seed"], eff["procs"]), engine_process(cur[0]))
+            elif on == "shared-conf":
+                eff = cur[1]  # one configuration object: what is assigned through this engine is seen by the other one
+                eng = make_engine(case, cur[0].configuration, make_process(case))
+            elif on == "new-conf":
+                eng, eff = cur
+                eng.configuration = make_configuration(case, eff["paths"], eff["seed"], eff["procs"])
+            else:
+                eng, eff = cur
+            for name, val in sorted(st.get("set", {}).items()):
+                if name == "paths":
+                    set_paths(eng.configuration, val)
+                elif name == "seed":
+                    eng.configuration.seed = val
+                else:
+                    eng.configuration.nb_of_processes = val
+                eff[name] = val
+            mode = OTHER_MODE[case["mode"]] if st.get("product") == "other" else case["mode"]
+            if mode not in products:
+                products[mode] = make_product(mode)
+            if st.get("pre") == "initialisation":  # the engine's public initialisation called by the user before pricing
+                if hasattr(eng, "process"):
+                    eng.initialisation(eff["paths"], products[mode])
+                else:
+                    eng.initialisation(products[mode])
+            elif st.get("pre") == "pre_computation":  # variates pre-drawn by the user and left unconsumed
+                engine_process(eng).pre_computation(mc_paths=eff["paths"], product=products[mode])
+            lo = h.mark()
+            stats = do_op(eng, products[mode], st["op"])
+            out.append({"mode": mode, "eff": dict(eff), "op": st["op"], "lo": lo, "hi": h.mark(), "rows": stored_rows(stats)})
+    _no_untraced(h, case)
+    return h, out
+
+
+def _history(sh, case):
+    label = history_label(case["steps"])
+    base = f"history:{_engine_tag(case)}:start={case['mode']}"
+    if case.get("method", "INVERSION") != "INVERSION":
+        base += f":{case['method'].lower()}"
+    outcomes = set()
+
+    def run(ch):
+        h, steps = play_history(case, ch)
+        _blind_spots(sh, h)
+        if all(s["hi"] - s["lo"] >= 2 for s in steps):
+            sh.nontriv()
+        failed = False
+        for k, s in enumerate(steps, 1):
+            e = s["eff"]
+            sh.count("evaluations")
+            sh.count("samples", s["hi"] - s["lo"])
+            # the key keeps '<mode>:...:pool:samples-share-variates:...' of the one-run sub-check (known finding)
+            upto = history_label(case["steps"][:k])  # the key names the history up to the step that fails
+            check_sharing(sh, s["mode"], h, f"{base}:{upto}:step{k}:{s['mode']}:{_env_tag(e['seed'], e['procs'])}", s["lo"], s["hi"])
+            if e["seed"] is not None and e["procs"] == 1:
+                ref = _reference(case, s["mode"], e["paths"], e["seed"], s["op"])
+                sh.count("compared_with_fresh_run")
+                if not same_rows(s["rows"], ref) and not failed:
+                    failed = True  # later steps of the same history differ for the same reason
+                    sh.violation(f"C08:{base}:{upto}:step{k}:seeded-single-process-run-on-re-used-objects-differs-from-the-run-on-fresh-objects",
+                                 f"seed={e['seed']}, one process, {e['paths']} paths, {s['mode']} product: step {k} ({s['op']}) of the "
+                                 f"history [{label}] on re-used objects does not store what the same pricing stores on freshly "
+                                 f"built objects: {first_difference(s['rows'], ref)}", {"steps": case["steps"]})
+        o = (tuple((s["ctx"], s["level"]) for _, s in sorted(h.samples.items())),
+             tuple((e[0], e[1], e[2]) for e in h.events if e[0].endswith("seed")),
+             tuple(core.digest([r.tolist() for r in s["rows"]]) for s in steps) if case["seed"] is not None and case["procs"] == 1 else ())
+        outcomes.add(core.digest(o))
+        sh.outcome(o)
+
+    ex = core.ChoiceExplorer(run, bound=case["bound"], max_runs=3000)
+    ex.explore()
+    if ex.capped:
+        sh.cap(f"run cap hit: {case}")
+    for st in case["steps"]:
+        sh.cls(f"history-step:{st['label']}")
+    sh.states += len(outcomes)
+    sh.transitions += ex.points_total
 
 
 # ----------------------------------------------------------------------------------------------------------------------
@@ -289,8 +691,6 @@ class ReportingProcess:
         pass
 
     def next_level(self, mc_paths, path_managers, product, max_step_epsilon=None):
-        import copy
-
         self.level += 1
         self.pre_computation(mc_paths, product)
         if path_managers is not None:
@@ -299,8 +699,6 @@ class ReportingProcess:
             path_managers.append(pm)
 
     def _report(self):
-        from rpylib.montecarlo.path import StochasticJumpPath
-
         row = self.rows.popleft()
         k = self.produced
         self.produced += 1
@@ -352,39 +750,47 @@ def _conformance(sh, case):
 
     procs, n = case["procs"], case["paths"]
     product = make_product("fixed")
-    with warnings.catch_warnings():
-        warnings.simplefilter("ignore")
-        if case["engine"] == "standard":
-            from rpylib.montecarlo.standard.engine import Engine
+    real_cpu_count = os.cpu_count
+    if procs is None:
+        # processes=None: the real pool asks os.cpu_count(); the answer is scripted so that the case is the same on every machine
+        os.cpu_count = lambda: case["cpus"]
+    try:
+        with warnings.catch_warnings():
+            warnings.simplefilter("ignore")
+            if case["engine"] == "standard":
+                from rpylib.montecarlo.standard.engine import Engine
 
-            conf = ConfigurationStandard(mc_paths=n, seed=None, nb_of_processes=procs)
-            stats = Engine(configuration=conf, process=ReportingProcess()).price(product)
-            codes = [np.asarray(stats._payoff_statistics.stats, dtype=float).ravel()]
-        else:
-            from rpylib.montecarlo.multilevel.engine import Engine
+                conf = ConfigurationStandard(mc_paths=n, seed=None, nb_of_processes=procs)
+                stats = Engine(configuration=conf, process=ReportingProcess()).price(product)
+                codes = [np.asarray(stats._payoff_statistics.stats, dtype=float).ravel()]
+            else:
+                from rpylib.montecarlo.multilevel.engine import Engine
 
-            conf = ConfigurationMultiLevel(initial_level=1, maximum_level=1, initial_mc_paths=n, seed=None, nb_of_processes=procs)
-            stats = Engine(configuration=conf, coupling_process=ReportingProcess()).price_with_constant_mc_paths_and_level(product)
-            codes = [np.asarray(m._payoff_statistics.stats, dtype=float)[:, 0, 0] for m in stats.mc_statistics]
+                conf = ConfigurationMultiLevel(initial_level=1, maximum_level=1, initial_mc_paths=n, seed=None, nb_of_processes=procs)
+                stats = Engine(configuration=conf, coupling_process=ReportingProcess()).price_with_constant_mc_paths_and_level(product)
+                codes = [np.asarray(m._payoff_statistics.stats, dtype=float)[:, 0, 0] for m in stats.mc_statistics]
+    finally:
+        os.cpu_count = real_cpu_count
+    workers = procs if procs is not None else (case["cpus"] or 1)
     for lvl, arr in enumerate(codes):
         rep = [(int(c) // 10_000, (int(c) // 100) % 100, int(c) % 100) for c in arr]
         sh.count("evaluations", len(rep))
-        cs, extra = divmod(n, 4 * procs)
+        cs, extra = divmod(n, 4 * workers)
         cs += 1 if extra else 0
         want = [(i % cs, i % cs) for i in range(n)]  # (row popped, produced-before) restart at every chunk
         got = [(r, k) for (_, r, k) in rep]
         pids = {p for (p, _, _) in rep}
-        ok = got == want and 1 <= len(pids) <= procs and os.getpid() not in pids
+        ok = got == want and 1 <= len(pids) <= workers and os.getpid() not in pids
         # all items of a chunk come from one process
         for i in range(0, n, cs):
             ok &= len({rep[j][0] for j in range(i, min(n, i + cs))}) == 1
         if not ok:
             sh.violation("C08:conformance:real-pathos-pool-differs-from-SimPool-model",
-                         f"procs={procs} n={n} level {lvl}: observed (pid,row,k) {rep}; SimPool models chunks of {cs} consecutive "
-                         f"items, each from a fresh copy of the parent's closure (row = k = index within the chunk), at most {procs} worker pids",
-                         None)
+                         f"procs={procs} (cpus {case.get('cpus')}) n={n} level {lvl}: observed (pid,row,k) {rep}; SimPool models chunks of "
+                         f"{cs} consecutive items, each from a fresh copy of the parent's closure (row = k = index within the chunk), "
+                         f"at most {workers} worker pids", None)
         else:
             sh.traces += 1
-        sh.outcome((procs, n, lvl, cs, len(pids)))
+        sh.outcome((procs, case.get("cpus"), n, lvl, cs, len(pids)))
     sh.nontriv()
     sh.sample({"sub": "conformance", "case": case, "chunk_size": cs, "distinct_worker_pids": len(pids), "first_reports": rep[:6]})
